@@ -228,6 +228,38 @@ def reused_layer_and_diagram_rules(ctx, n):
                                                reused=got[0], fresh=fresh[0]),
                                           f"a LayerRule object re-applied to architecture #{k} gives {got[0]}, a fresh one {fresh[0]}", {"kind": "reapply_layer_rule"})
                             break
+            # ---- a LayerRule whose layer is given by a regex that matches DIFFERENT modules on the architectures it is applied to
+            nodes = rules.rand_tree(rng, rng.choice((rules.COLLISION_FREE, rules.ADVERSARIAL)), max_nodes=12)
+            parents = [x for x in nodes if x != "r" and sum(1 for y in nodes if y.startswith(x + ".") and y.count(".") == x.count(".") + 1) >= 2]
+            if parents:
+                import re as _re
+                P = rng.choice(parents)
+                kids = [y for y in nodes if y.startswith(P + ".") and y.count(".") == P.count(".") + 1]
+                gone = rng.choice(kids)
+                others = [x for x in nodes if x != "r" and not rules.related(x, P)]
+                if others:
+                    O = rng.choice(others)
+                    edges = sorted(set(rules.rand_edges(rng, nodes, 10)) | {(rng.choice(kids), O), (O, rng.choice(kids))})
+                    small = [x for x in nodes if not (x == gone or x.startswith(gone + "."))]
+                    archs = [rules.make_arch_direct(small, [(a, b) for a, b in edges if a in small and b in small]), rules.make_arch_direct(nodes, edges)]
+                    la_calls = [("kids", "regex", _re.escape(P) + r"\.[^.]+$"), ("other", "list", [O])]
+                    for h in c05.histories(dict(arch_calls=la_calls, subj="kids", objs=["other"], obj_as_str=False))[0][::3] + \
+                            c05.histories(dict(arch_calls=la_calls, subj="other", objs=["kids"], obj_as_str=False))[0][::3]:
+                        try:
+                            robj = layers.build_lr(h)
+                        except Exception:  # noqa: BLE001
+                            continue
+                        for k in (0, 1, 0, 1):
+                            got = rules.run_rule(robj, archs[k])
+                            fresh = layers.run_lr_impl(h, archs[k])
+                            ctx.evaluations += 2
+                            if got != fresh:
+                                ctx.violation(dict(nodes=nodes, edges=edges, smaller_architecture_lacks=gone, layers=[list(x) for x in la_calls], rule=[list(x) if isinstance(x, tuple) else x for x in h[1:]],
+                                                   architecture_index=k, reused=[got[0], got[1][:200]], fresh=[fresh[0], fresh[1][:200]]),
+                                              f"a LayerRule with a regex layer applied to a second architecture (where the regex matches other modules) gives {got[0]}, a fresh rule object {fresh[0]}"
+                                              + ("" if got[0] != fresh[0] else " with a different report"), {"kind": "reapply_layer_rule_regex"})
+                                break
+                    ctx.stat("regex_layer_rule_on_two_architectures")
             # ---- DiagramRule objects for two diagrams, interleaved, on two architectures each
             c1, c2 = c07.gen_case(rng), c07.gen_case(rng)
             files = []
